@@ -119,17 +119,18 @@ new.append(entry("C04",
 
 MSGTYPES = open(os.path.join(SPEC, "message_types.txt")).read().split()
 new.append(entry("C05",
+    thorough_functions=["messages.UnmarshalRequest", "messages.UnmarshalResponse"],
     functions=["messages.lemmaRoundTrip" + t for t in MSGTYPES] + ["messages.lemmaDecode" + t for t in MSGTYPES] +
               ["types.lemmaRoundTrip" + t for t in ("Date", "DateTime", "HHmm", "PIN", "SerialNumber", "Version")] +
               ["types.(%s).MarshalUT0311L0x" % t for t in ("Date", "DateTime", "SystemDate", "SystemTime", "HHmm", "PIN", "SerialNumber", "Version", "MacAddress")] +
               ["types.(*%s).UnmarshalUT0311L0x" % t for t in ("Date", "DateTime", "SystemDate", "SystemTime", "HHmm", "PIN", "SerialNumber", "Version", "MacAddress")] +
               ["encoding/bcd.Encode", "encoding/bcd.Decode"],
-    scope=[r"^messages\.lemma\w+#ensures:", r"^messages\.lemma\w+#requires:", r"^types\.lemmaRoundTrip\w+#", r"^types\.\(\*?\w+\)\.(Unm|M)arshalUT0311L0x#", r"^encoding/bcd\.(En|De)code#"],
+    scope=[r"^messages\.Unmarshal(Request|Response)#ensures:", r"^messages\.lemma\w+#ensures:", r"^messages\.lemma\w+#requires:", r"^types\.lemmaRoundTrip\w+#", r"^types\.\(\*?\w+\)\.(Unm|M)arshalUT0311L0x#", r"^encoding/bcd\.(En|De)code#"],
     scope_exclude=[r"^types\.\(\*(Date|SystemDate)\)\.UnmarshalUT0311L0x#ensures:civil$"],
     pinned_file="pins_messages.json", pinned_labels=["contract"],
     replay=[{"match": "messages.lemmaDecode", "driver": "messages_decode", "pkg": "messages", "case": "all"}],
     assumptions=COMMON_ASSUME + ["bcd.* and time.* spec functions are opaque in the message-level lemmas; the facts used about them are the spec lemmas bcd.pack.inv, bcd.val2.inv, bcd.zero and time.fields.range, proved from the definitions on every run"],
-    not_decided=["the dispatchers messages.UnmarshalRequest / UnmarshalResponse (table of constructors returning `any`: dynamic type not statically known to the engine)",
+    not_decided=["the dispatchers messages.UnmarshalRequest / UnmarshalResponse are verified in the THOROUGH tier only (one case per function code of the dispatch table, several minutes of VC generation); the quick tier does not decide them",
                  "date/time fields: the message-level lemma proves that the field is written in its BCD form at its offset and read back from the same offset (wire.date / wire.rdate ...); that reading back yields the same civil value in every time zone is the per-type statement of C13",
                  "independence from non-field bytes is not stated as a separate lemma"],
     explanation="For each of the 65 message structs T (32 requests, 31 replies, Event, EventV6_62) the lemma function lemmaRoundTrip<T>(v) = Unmarshal(Marshal(v)) is verified with the reflective codec executed on its real body: for every in-domain v decoding succeeds and every integer/boolean/PIN/HH:mm/IPv4/address:port/MAC/version field of the result equals the field of v; lemmaDecode<T>(b) shows that an arbitrary byte string is only accepted when it is 64 bytes long and carries T's protocol id and function code."))
@@ -234,6 +235,16 @@ new.append(entry("C10", level="other",
                  "the dispatch goroutine of Listen (maps a received event to types.Status and calls OnEvent): its body is not under contract - an infinite receive loop whose per-iteration statement has no handle in a function contract; the same field mapping is verified for GetStatus (C02)",
                  "ut0311.Listen (receive loop with goroutines)"],
     explanation="Decided per datagram: the receive handler (closure listen$1) produces for EVERY byte string exactly one of - one send of a freshly decoded event on the pipe, and then the datagram was 64 bytes, protocol id 0x17 or 0x19, function code 0x20, non-zero serial number, boolean bytes 0/1, and every field of the event is the protocol decoding of the datagram - or exactly one OnError callback and no send; it never calls OnEvent/OnConnected. listen() calls OnConnected exactly once, after driver.Listen returned nil, and returns nil; on a driver error it returns the error without OnConnected. Level 'other': the cross-goroutine clauses cannot be expressed as function contracts."))
+
+
+new.append(entry("C11", level="other",
+    functions=["uhppote.(*uhppote).GetDevices", "messages.lemmaDecodeGetDeviceResponse", "messages.lemmaRoundTripGetDeviceRequest"],
+    scope=[r"^uhppote\.\(\*uhppote\)\.GetDevices#", r"^messages\.lemma(DecodeGetDeviceResponse|RoundTripGetDeviceRequest)#"],
+    pinned_file="pins_uhppote.json", pinned_labels=["contract", "macro"],
+    assumptions=COMMON_ASSUME + ["driver.Broadcast (interface contract): one discovery request handed to the driver, the datagrams collected within the timeout returned in arrival order - the collector goroutine of ut0311.Broadcast itself is outside the sequential subset"],
+    not_decided=["that each returned entry is the protocol decoding of ITS reply, in arrival order, duplicates included: the filter-map over []any would need a ghost index sequence relating result k to datagram f(k); what is decided instead: decoding of one get-device reply (lemmaDecodeGetDeviceResponse, and the same field mapping in GetDevice under C02)",
+                 "that every well-formed reply yields an entry (only the upper bound len(result) <= number of datagrams is proved)"],
+    explanation="GetDevices is verified with broadcast() and the reflective codec executed in place (loop invariants for both loops): exactly one discovery request (function 0x94, serial 0, zero elsewhere) is handed to driver.Broadcast, addressed to the configured broadcast address (255.255.255.255:60000 by default); the call fails only if the driver fails - a wrong-length or undecodable datagram never makes it fail (`total`); the result has at most one entry per datagram; every entry's address carries the broadcast port (60000 by default) and the name of the matching configured controller (`ports`, `names`); no run-time panic, including the type assertion on the decoded replies. Level 'other': the per-entry decoding/order clause is not decided."))
 
 ids = {e["id"] for e in new}
 out = [p for p in props if p["id"] not in ids] + new
